@@ -40,7 +40,7 @@ RULE = ("cases come from four structured generators (names at the 63/255 limits,
         "one-octet/one-escape scope; distinct = distinct canonical case; non-trivial = the implementation returned a value, "
         "or an error class not yet seen for that case kind")
 
-MODEL_OPS = (1, 4, 5, 6, 7, 8, 9, 10, 11, 12, 13, 14, 15, 16, 17, 18)
+MODEL_OPS = (1, 4, 5, 6, 7, 8, 9, 10, 11, 12, 13, 14, 15, 16, 17, 18, 24)
 
 
 # ------------------------------------------------------------------ small helpers
@@ -665,12 +665,22 @@ def wire_cases(ctx, n_plain, n_host, n_equal):
         m = pre + enc(n) + suf
         yield "from_wire", [8, m, len(pre)]
         yield "from_wire_tr", [17, m, len(pre)]
+        # dns.wire.Parser.get_name(origin): decode then relativize
+        r = rng.random()
+        if r < 0.5 and len(n) > 1:
+            o = n[rng.randint(0, len(n) - 1):]
+            o = nl.case_variant(rng, o) if rng.random() < 0.5 else o
+        else:
+            o = gen_origin(ctx, ("none", "root", "abs", "rel", "empty"))
+        yield "parser_get_name", [24, m, len(pre), o]
     for _ in range(n_host):
         m, off = wire_hostile(ctx)
         if len(m) > 640:
             continue
         yield "from_wire", [8, m, off]
         yield "from_wire_tr", [17, m, off]
+        if rng.random() < 0.3:
+            yield "parser_get_name", [24, m, off, gen_origin(ctx, ("none", "root", "abs"))]
     for m, off in equal_pointer_wires(ctx, n_equal):
         yield "from_wire", [8, m, off]
         yield "from_wire_tr", [17, m, off]
@@ -967,7 +977,7 @@ def _oracle(ctx, kind, case, out):
         produced = [out]
     elif op == 12:
         produced = list(out)
-    elif op in (8, 17):
+    elif op in (8, 17, 24):
         produced = [out[0]]
     elif op == 30:
         produced = [x for x in out[1:] if not isinstance(x, Err)]
